@@ -459,6 +459,9 @@ class World:
             self.viol(["C06"], "no-tagged-reply", f"{ss.name}: {shown!r:.80} -> {r.status}; log={[x[2][:160] for x in self.rig.log_records[-2:]]}")
         if r.latency is not None and r.latency >= 60:
             self.viol(["C06"], "latency", f"{ss.name}: {shown!r:.80} took {r.latency:.0f} virtual seconds")
+        for o in self.rig.sessions:
+            if o.view_errors:
+                self.viol(["C01"], "view-monitor", f"after {ss.name}: {shown!r:.60}: {o.view_errors[:3]}")
         return r
 
     async def op_select(self, ss, name, examine=False):
